@@ -156,16 +156,18 @@ Proof.
   repeat split; repeat constructor; try discriminate; try (vm_compute; reflexivity).
 Qed.
 
-(* every byte in its own read, 2 bytes of output space per call, then enough empty reads to drain *)
+(* three reads, 2 bytes of output space per call, then empty reads until the output has drained *)
+Definition ex_stream : bytes := encode ex_msg ++ [78; 69; 88; 84].
 Definition ex_sched : list (bytes * N) :=
-  map (fun c => ([c], 2)) (encode ex_msg ++ [78; 69; 88; 84]) ++ [([], 0); ([], 2)].
+  [(takeN 10 ex_stream, 2); (takeN 20 (dropN 10 ex_stream), 2); (dropN 30 ex_stream, 2); ([], 0); ([], 2); ([], 1)].
 
-Example C24_ex_live : live [78; 69; 88; 84] [] ex_sched (lenN (body ex_msg)).
-Proof. vm_compute. repeat first [ solve [left; split; [lia | intro Hc; discriminate Hc]] | right ]. Qed.
+Example C24_ex_live : segs ex_sched ++ [] = encode ex_msg ++ [78; 69; 88; 84] /\
+  live [78; 69; 88; 84] [] ex_sched (lenN (body ex_msg)).
+Proof. split; [vm_compute; reflexivity|]. vm_compute. repeat first [ solve [left; split; [lia | intro Hc; discriminate Hc]] | right ]. Qed.
 
 Example C24_ex_run :
   r_status (run_chunked true ex_sched) = RDone /\ r_out (run_chunked true ex_sched) = body ex_msg /\
-  r_rest (run_chunked true ex_sched) = [].
+  r_rest (run_chunked true ex_sched) = [78; 69; 88; 84].
 Proof. vm_compute. repeat split; reflexivity. Qed.
 
 Example C24_ex_reject_hyps : at_size init_state /\ is_hex 103 = false /\
